@@ -750,9 +750,57 @@ fn c04_anchors(ctx: &mut Ctx, acc: &mut Acc) {
 
 const SUFFIX_BYTES: [u8; 5] = [0x00, 0x01, 0x7f, 0x80, 0xff];
 
+/// A value that starts more than 2^32 bytes into its stream (the bytes before it are skipped, never touched): chunk
+/// windows are offsets into the enclosing region, and 32 bits are not enough for them.  Native lanes only.
+fn far_offsets(ctx: &mut Ctx, acc: &mut Acc) {
+    use desert::{BinaryCodec, BinaryDeserializer, BinaryInput, DeserializationContext};
+    if ctx.shard != 0 || ctx.only_fresh() || !matches!(ctx.lane.as_str(), "dbg" | "rel") || cfg!(miri) {
+        return;
+    }
+    #[derive(BinaryCodec, Debug, PartialEq, Clone)]
+    #[evolution(FieldAdded("y", 0u32), FieldAdded("z", String::new()))]
+    struct FarRec {
+        x: u64,
+        y: u32,
+        z: String,
+    }
+    let value = FarRec { x: 0x0102_0304_0506_0708, y: 0x1122_3344, z: "far".into() };
+    for gap in [(1usize << 32) - 3, (1usize << 32) + 5] {
+        acc.case(Some(gap as u64));
+        let Some(mut big) = sbase::zeroed(gap + 256) else {
+            acc.count("skipped_for_lack_of_address_space");
+            continue;
+        };
+        ctx.crumb("FarRec", "far offset", &[]);
+        let (r, _) = sbase::monitored(None, || {
+            let enc = desert::serialize_to_byte_vec(&value).map_err(|e| sbase::classify(&e))?;
+            big.truncate(gap + 2 * enc.len() + 3);
+            big[gap..gap + enc.len()].copy_from_slice(&enc);
+            big[gap + enc.len()..gap + 2 * enc.len()].copy_from_slice(&enc);
+            let tail = gap + 2 * enc.len();
+            big[tail..].copy_from_slice(&[9, 8, 7]);
+            let mut c = DeserializationContext::new(&big);
+            c.skip(gap).map_err(|e| sbase::classify(&e))?;
+            let a = FarRec::deserialize(&mut c).map_err(|e| sbase::classify(&e))?;
+            let b = FarRec::deserialize(&mut c).map_err(|e| sbase::classify(&e))?;
+            let rest = c.read_bytes(3).map(|s| s.to_vec()).map_err(|e| sbase::classify(&e))?;
+            let end = c.read_u8().is_err();
+            Ok((a, b, rest, end))
+        });
+        match r {
+            Call::Ok((a, b, rest, true)) if a == value && b == value && rest == [9, 8, 7] => acc.count("values_beyond_4_gib_read_in_place"),
+            other => acc.violation(
+                format!("C07|far_offset|{}", if other.is_ok() { "other_value_or_position".to_string() } else { other.class() }),
+                J::obj().with("check", J::s("C07")).with("mode", J::s("content")).with("offset", J::u(gap as u64)).with("got", J::s(format!("{other:?}").chars().take(300).collect::<String>())),
+            ),
+        }
+    }
+}
+
 pub fn c07(ctx: &mut Ctx, acc: &mut Acc) -> i32 {
     if ctx.extra.get("only").is_none() {
         big_values(ctx, acc, "C07");
+        far_offsets(ctx, acc);
     }
     let n_cat = ctx.n(400, 4000);
     let n_der = ctx.n(100, 600);
